@@ -67,3 +67,23 @@ Example C04_ex_one_read :
     (on_read typed_other_inst set_cookie_inst 2 64 pstate_init (ex_r1 ++ ex_r2 ++ firstn 9 ex_r1))
   = Some [list_of_string "/one"; list_of_string "/two"; []].
 Proof. vm_compute. reflexivity. Qed.
+
+(* The full statement at the level of the connection.  Requests [rs] - each exactly one message [ms] and within the size
+   limit - delivered on a fresh connection in reads cut ANYWHERE (inside requests, at their boundaries, several requests
+   and the beginning of the next one in a read, empty reads): Handler::onInput, read by read, calls the handler exactly
+   once per request, in order, each time with the message that request gives alone on a fresh connection, and refuses
+   nothing.  ([calls] keeps the handler calls of the action list, dropping the waits.) *)
+Theorem C04_train_of_requests_cut_anywhere : forall typed_other set_cookie maxsz rs ms segs,
+  train typed_other set_cookie maxsz rs ms -> concat segs = concat rs ->
+  exists acts, serve typed_other set_cookie maxsz pstate_init segs = Some acts
+               /\ calls acts = ms /\ forallb no_respond acts = true.
+Proof. exact train_served. Qed.
+Print Assumptions C04_train_of_requests_cut_anywhere.
+
+Example C04_ex_train_cut :
+  let all := ex_r1 ++ ex_r2 ++ ex_r1 in
+  option_map (map (fun a => match a with AHandler m => m_resource m | AWait => list_of_string "wait" | ARespond _ => list_of_string "refused" end))
+    (serve typed_other_inst set_cookie_inst 64 pstate_init [firstn 10 all; firstn 60 (skipn 10 all); []; skipn 70 all])
+  = Some [list_of_string "wait"; list_of_string "/one"; list_of_string "wait"; list_of_string "wait";
+          list_of_string "/two"; list_of_string "/one"].
+Proof. vm_compute. reflexivity. Qed.
